@@ -32,6 +32,10 @@ class SchedTime(object):
     self.run.now += max(dt, 0)
 
 
+class CorruptFile(Exception):
+  """a backend-specific failure that is not an OSError (no .filename, .errno)"""
+
+
 class MemoryDB(object):
   """Stands for Whisper/Ceres (not installed): the carbon TimeSeriesDatabase API."""
   aggregationMethods = ['average', 'sum', 'last', 'max', 'min']
@@ -50,13 +54,18 @@ class MemoryDB(object):
     idx = self.ncalls
     self.ncalls += 1
     fail = idx in self.faults
+    if run.cfg.get('fault_writes'):
+      # the fault script counts write() calls only: the n-th write fails
+      self.nwrites = getattr(self, 'nwrites', 0) + (1 if op == 'write' else 0)
+      fail = op == 'write' and (self.nwrites - 1) in self.faults
     has = metric in self.files
     ev = dict(k='db', op=op, m=run.mid(metric), ok=0 if fail else 1, res=int(has), has=int(has),
               pts=[[run.tlog(a), cachesys.dec(b)] for a, b in pts], idx=idx, now=int(run.now * 1024))
     run.ev.append(ev)
     run.pending_cnt = True
     if fail:
-      raise IOError('injected fault in %s(%s) [call %d]' % (op, metric, idx))
+      # backends fail with OSError (disk) as well as with their own exception classes (whisper.CorruptWhisperFile)
+      raise (IOError if idx % 2 == 0 else CorruptFile)('injected fault in %s(%s) [call %d]' % (op, metric, idx))
     return has
 
   def exists(self, metric):
@@ -87,6 +96,7 @@ class WriterRun(object):
     self.preexisting = preexisting
     self.stop = stop
     self.ev = []
+    self.lost = []
     self.now = 100.0
     self.ts0 = 100
     self.pending_cnt = False
@@ -151,6 +161,10 @@ class WriterRun(object):
         m, ts, vid = self.r_pending
         if cache.get(m, {}).get(ts) == cachesys.enc(vid):
           self.ev.append(dict(k='stored', m=self.mid(m), ts=self.tlog(ts), id=vid))
+        else:
+          # the cache is unbounded in these runs: a datapoint that is not in the cache when store() drops the
+          # lock went somewhere nobody will ever look (e.g. a per-metric dict that was popped meanwhile)
+          self.lost.append([self.mid(m), self.tlog(ts), vid])
         self.r_pending = None
       elif owner == 'W' and self.w_pop is not None and self.w_snapshot is not None:
         self.ev.append(dict(k='drained', m=self.mid(self.w_pop), batch=[list(x) for x in self.w_snapshot]))
@@ -241,7 +255,7 @@ class WriterRun(object):
       self.teardown()
     # counter snapshots: one after each db event is needed by the judge; add them where the
     # writer's next event follows (the counters are only touched by the writer thread)
-    return dict(ev=self.finalize_events(), strategy=self.cfg['strategy']), log
+    return dict(ev=self.finalize_events(), strategy=self.cfg['strategy'], lost=self.lost), log
 
   def finalize_events(self):
     return self.ev
